@@ -14,6 +14,10 @@ ASAN_CHECKS := c33 c25 c13 c18 c19 c20 c23 c32
 ASAN_BINS := $(patsubst %,$(B)/bin/%,$(ASAN_CHECKS))
 SIM_SRC_c19 := sim/alloc_seam.cpp
 SIM_SRC_c20 := sim/alloc_seam.cpp
+SIM_SRC_c23 := sim/rand_seam.cpp
+SIM_SRC_c32 := sim/rand_seam.cpp
+LDFLAGS_c23 := -Wl,--wrap=rand
+LDFLAGS_c32 := -Wl,--wrap=rand
 
 .PHONY: all asan c41
 all: asan c41
